@@ -71,8 +71,3 @@ def run(tier: str, seed: int) -> int:
         "observed joint covariance at most 4 x 4 (exact inverse by cofactors); entries small integers, scalings in {1/2, 1, 2}",
     ]
     return rep.finish()
-
-
-def replay(rep_obj) -> int:
-    print(rep_obj.get("what"))
-    return 1
